@@ -11,11 +11,12 @@ PROP = dict(
     level_note="Trusts the harness's own description of its signing universe (which key belongs to which account, validity windows, the constraints it put on "
                "the constrained key) and the OpenPGP library for crafting signatures; re-spellings of the same decoded signature bytes and undecodable mutants carry no claim.",
     rule="each case = (assertion type, headers, revision, body, signer = authority+key, clock position relative to the key window, timestamp position, "
-         "earliest-time mode, mutation); mutation is none, one byte operation at a generated offset of the encoding (content or signature part), or a "
+         "earliest-time mode, database shape (plain / stacked with an empty or an account-key-carrying top layer), mutation); mutation is none, one byte operation at a generated offset of the encoding (content or signature part), or a "
          "structural change. Non-trivial = a byte mutant that still decodes and differs in signed content or decoded signature, or a case with a structural "
          "defect/mutation; distinct by hash of the case.",
     assumptions=["key validity is the half-open interval [since, until) judged against the package's mockable clock; with SetEarliestTime(e) a key is acceptable iff it has no until or e < until",
                  "types carrying a timestamp: account, snap-declaration, snap-revision, model, validation-set; test-only types and account-key carry none",
+                 "in a database made with WithStackedBackstore the key facts that count are those of the newest account-key revision the database finds (Add only ever stores a higher revision on top)",
                  "no claim for mutants that do not decode or that only re-spell the base64 of the signature"],
     engines=[
         gt("accept", "asserts", "TestVerifC18Accept", dict(checks=5000, shards=2), dict(checks=100000, shards=16)),
